@@ -173,6 +173,7 @@ theorem writes_publish (fs : FS) (r : Ref) (obj : Path) :
   apply WritesIn.append
   · apply WritesIn.append
     · intro s hs q hq
+      unfold rmAt at hs
       split at hs
       · simp only [List.mem_singleton] at hs; subst hs
         exact Or.inl (by simpa [Step.writes] using hq)
